@@ -226,7 +226,10 @@ func c10Prop(c *sim.Case) {
 					}
 				}
 			}
-			switch sim.Weighted(c, "adv.kind", 4, 2, 1, 2) {
+			switch sim.Weighted(c, "adv.kind", 8, 4, 2, 4, 1) {
+			case 4:
+				// hours and days: with limits that leave the session alive that long (or none at all) nothing may drop it
+				d = []time.Duration{2 * time.Hour, 25 * time.Hour, 40 * 24 * time.Hour}[sim.Pick(c, "adv.long", 3)]
 			case 3:
 				// to either side of the instant from which the absolute limit, not the idle one, is the nearer of the two
 				off := []time.Duration{-500, 500, 1200}[sim.Pick(c, "adv.cross", 3)] * time.Millisecond
